@@ -743,3 +743,39 @@ Proof.
   destruct (G roots cs_init 0 (cs_inv_init _ [])) as (s & E & R); [exact Hnd| |eauto].
   intros x Hx. now apply in_map.
 Qed.
+
+(* ---- histories with refused calls ---- *)
+Lemma cs_run_index_irrelevant ops : forall s k k',
+  fst (cs_run s ops k) = fst (cs_run s ops k') /\
+  (snd (cs_run s ops k) = None <-> snd (cs_run s ops k') = None).
+Proof.
+  induction ops as [|o ops IH]; intros s k k'; cbn [cs_run]; [split; [reflexivity|tauto]|].
+  destruct (cs_step s o) as [s1|f]; [apply IH|]. cbn. split; [reflexivity|]. split; discriminate.
+Qed.
+
+(* the state after a history with refused calls is the state after the history without them, and one fails iff the
+   other does: theorem C11 (registration_equals_fresh) speaks about it through [accepted_ops] *)
+Theorem run_skip_is_run_of_accepted ops : forall s k anom,
+  fst (fst (cs_run_skip s ops k anom)) = fst (cs_run s (accepted_ops ops) 0) /\
+  (snd (fst (cs_run_skip s ops k anom)) = None <-> snd (cs_run s (accepted_ops ops) 0) = None).
+Proof.
+  unfold accepted_ops.
+  induction ops as [|[refused o] ops IH]; intros s k anom; cbn [cs_run_skip filter map fst snd negb cs_run].
+  - split; [reflexivity|tauto].
+  - destruct refused; cbn [negb filter map cs_run].
+    + destruct (cs_step s o); apply IH.
+    + cbn [snd]. destruct (cs_step s o) as [s1|f].
+      * destruct (IH s1 (S k) anom) as [E1 E2].
+        destruct (cs_run_index_irrelevant (map snd (filter (fun x => negb (fst x)) ops)) s1 0 1) as [F1 F2].
+        rewrite E1, E2, F1, F2. split; [reflexivity|tauto].
+      * cbn. split; [reflexivity|]. split; discriminate.
+Qed.
+
+(* a refused call the model agrees had to be refused leaves no anomaly: the count only grows where the model would
+   have carried the call out *)
+Lemma run_skip_anomalies_monotone ops : forall s k anom, anom <= snd (cs_run_skip s ops k anom).
+Proof.
+  induction ops as [|[refused o] ops IH]; intros s k anom; cbn [cs_run_skip]; [apply le_n|].
+  destruct refused, (cs_step s o); cbn [snd]; try apply IH; try apply le_n.
+  eapply Nat.le_trans; [apply Nat.le_succ_diag_r|apply IH].
+Qed.
